@@ -95,6 +95,7 @@ func runAliasMode(seed int64, n int, tr *transcript) {
 			u := pick(r, unis)
 			present := map[string]int{}
 			var bufs []*callerBuf
+			scan := make([]byte, 48)
 			violated := func(what string, b *callerBuf) {
 				tr.emit(fmt.Sprintf("assert %d caller-buffer-unchanged-by-%s", id, what),
 					fmt.Sprintf("modified:before=%x:after=%x:key-at=%d+%d", b.snapshot, b.arr, b.off, b.n))
@@ -124,6 +125,14 @@ func runAliasMode(seed int64, n int, tr *transcript) {
 					}
 				}
 				b := newCallerBuf(r, key, r.Intn(3))
+				if r.Intn(2) == 0 && len(key) <= len(scan) {
+					// the scanner idiom proper: ONE zero-initialised buffer, refilled in place for key after key, so that
+					// consecutive calls see the same address (often the same length) with different contents, and
+					// whatever follows the key is either 0x00 or the tail of an earlier key
+					copy(scan, key)
+					b = &callerBuf{arr: scan, off: 0, n: len(key), capLimit: len(scan), snapshot: append([]byte{}, scan...)}
+					tr.stats["alias-scan-buffer-calls"]++
+				}
 				tl := t.TranscriptLit(lit)
 				switch op := r.Intn(6); op {
 				case 0, 1: // Insert, then the caller reuses the buffer
@@ -437,8 +446,27 @@ func memOne(r *rand.Rand, n int, slack int64, spec string, tr *transcript) {
 			seen[c] = true
 			keys = append(keys, k)
 		}
+		keyBytes := 0
 		for i, k := range keys {
 			t.Insert(k, i)
+			keyBytes += len(k) / 2
+		}
+		// what the tree keeps alive is linear in what it stores: per key a leaf, at most one inner node, its key
+		// bytes (twice for collation trees, whose sort keys are a few times longer than the text)
+		{
+			got := int64(liveHeap()) - int64(base)
+			bound := slack + int64(len(keys))*700 + int64(keyBytes)*12
+			name := fmt.Sprintf("assert 0 retained-heap-linear-in-content/%s/keys=%d", strings.ReplaceAll(spec, " ", "_"), len(keys))
+			if got > bound {
+				tr.emit(name, fmt.Sprintf("retained=%dB>bound=%dB", got, bound))
+			} else {
+				tr.emit(name, "ok")
+			}
+			tr.stats["mem-bytes-per-key"] = max(tr.stats["mem-bytes-per-key"], int(got)/max(1, len(keys)))
+		}
+		// one look-up of a long absent key: whatever scratch space that needs must not be paid per stored key later
+		if !strings.HasPrefix(spec, "num") && !strings.HasPrefix(spec, "comp") {
+			t.Get(hexLit(bytes.Repeat([]byte("long-absent-key/"), 512)))
 		}
 		report := func(phase string, before uint64) {
 			after := liveHeap()
@@ -551,10 +579,20 @@ func runRaceMode(seed int64, n int, tr *transcript) {
 				hc.profile = "mixed"
 				hc.maxKeys = 120
 				id := 1000*(g+1) + h
+				if h%2 == 1 {
+					// heavy class churn: nodes of every size class are released to and taken from the shared pool
+					// by all goroutines at once
+					hc = pick(r, histCfgsFor(pick(r, []string{"unsigned", "signed", "alpha"}), r))
+					hc.ops, hc.profile, hc.maxKeys = 150, "mixed", 300
+				}
 				s.newTree(id, hc.spec)
 				hh := &history{s: s, r: r, id: id, cfg: hc, present: map[string]string{}, feat: map[string]bool{}}
 				hh.uni = []universe{pick(r, hc.unis)}
-				hh.run()
+				if fk := fanKeys(hc.spec, r); h%2 == 1 && fk != nil {
+					hh.runFan(fk)
+				} else {
+					hh.run()
+				}
 				delete(s.trees, id)
 				runtime.Gosched()
 			}
